@@ -12,7 +12,8 @@
 //	(c) real bugs and identities whose ids were mined (deterministic nonces) to share 1..3 leading
 //	    hex characters, with 1..5 comments whose operation ids were mined the same way (across bugs and inside one bug): every prefix
 //	    length 0..64 of every id through ResolvePrefix/ResolveExcerptPrefix and of every comment's
-//	    combined id (and crossed / perturbed variants) through ResolveComment.
+//	    combined id (and crossed / perturbed variants) through ResolveComment; and the command-layer
+//	    resolver _select.Resolve for every selection state x every prefix of every bug id.
 package c13
 
 import (
@@ -162,7 +163,7 @@ func Main(args []string) {
 		"distinct_nontrivial":           inputs,
 		"exhaustive":                    *only == "" && !harnessErr,
 		"rule": "states = distinct inputs (id pair, prefix length) for (a), (population, prefix) for (b) and (c); transitions = calls of the real " +
-			"functions (SeparateIds, ResolveExcerptPrefix, ResolvePrefix, ResolveComment) each compared with the reference computed from the " +
+			"functions (SeparateIds, ResolveExcerptPrefix, ResolvePrefix, ResolveComment, _select.Resolve) each compared with the reference computed from the " +
 			"population by plain string-prefix matching; an input is non-trivial when distinct by (population, prefix)",
 		"parts":             parts,
 		"outcomes":          outcomes,
@@ -179,6 +180,7 @@ func Main(args []string) {
 			"(c) reduced space: real populations of 6 bugs (three sharing 3 leading hex characters, one sharing 2, one sharing 1, one sharing none) with 1..5 comments (one bug holds comments whose operation ids share exactly 1, 2 and 3 leading characters) and 3 identities (sharing 2 and 1 leading characters), found by mining with the deterministic nonce seam; thorough runs more such populations",
 			"a prefix matched by several comments (of one bug or of several) does not identify a single comment: any error is accepted, a successful resolution is a violation",
 			"the error type for an unknown comment is not fixed by the statement (any error accepted)",
+			"command layer (_select.Resolve as commands/bug calls it, on the real populations, every selection state x every prefix): a first argument that is some bug's prefix is resolved like ResolvePrefix whatever is selected (one -> that bug and the remaining arguments, several -> multiple-match error listing exactly them); an argument that is no bug's prefix, or no argument, falls back to the selection as the function documents (selected bug with the arguments untouched; nothing selected -> no-valid-id error; selection of a missing bug -> no-valid-id error and the selection cleared); the empty string as argument is a prefix like any other",
 		},
 		WallS: time.Since(start).Seconds(), Violations: rep.Viol, Known: rep.KnownSeen()}
 	if err := ev.Write(); err != nil {
